@@ -1,11 +1,40 @@
 #!/venv/bin/python
-"""tools/gen_inventory.py — write sa/inventory.json: every function (module:qualname) of the tree the rules were confirmed on.
-Functions that are not in this list are 'new helpers' for the normaliser (sa/normalize.py, pass N1) and are inlined at
-their call sites where that is possible.  Re-run after a reviewed change of /repo that adds functions (e.g. a fix: commit)."""
-import json, os, sys
+"""tools/gen_inventory.py — write sa/inventory.json: the functions (module:qualname, with a fingerprint: parameter count and the
+names they call / attributes they touch) and the self attributes per class of the tree the rules were confirmed on.
+The normaliser (sa/normalize.py) uses it to tell NEW helpers (inlined at their call sites, pass N1) from RENAMED functions and
+attributes (renamed back, pass N0).  Re-run after a reviewed change of /repo that adds or renames functions (e.g. a fix: commit)."""
+import ast, json, os, sys, warnings
 sys.path.insert(0, os.path.dirname(os.path.dirname(os.path.abspath(__file__))))
-from sa.model import Repo
-r = Repo(sys.argv[1] if len(sys.argv) > 1 else "/repo")
-inv = sorted(f.fq for f in r.all_funcs())
+from sa import normalize as N
+root = sys.argv[1] if len(sys.argv) > 1 else "/repo"
+pkg = os.path.join(root, "klongpy")
+trees = {}
+for dp, dn, fn in sorted(os.walk(pkg)):
+    dn.sort()
+    if "__pycache__" in dp:
+        continue
+    for f in sorted(fn):
+        if f.endswith(".py"):
+            path = os.path.join(dp, f)
+            with warnings.catch_warnings():
+                warnings.simplefilter("ignore")
+                trees[os.path.relpath(path, pkg)[:-3]] = ast.parse(open(path, encoding="utf-8").read())
+funcs, attrs = N.scan(trees)
+inv = {"functions": {}, "attrs": {k: sorted(v) for k, v in sorted(attrs.items())}}
+for fq, node in sorted(funcs.items()):
+    inv["functions"][fq] = N.fingerprint(node)
+    # nested functions: qualified by the chain of enclosing functions (as sa/model.py names them)
+    def nested(fn, prefix):
+        def rec(n):
+            for c in ast.iter_child_nodes(n):
+                if isinstance(c, (ast.FunctionDef, ast.AsyncFunctionDef)):
+                    inv["functions"][prefix + "." + c.name] = N.fingerprint(c)
+                    nested(c, prefix + "." + c.name)
+                elif isinstance(c, (ast.ClassDef, ast.Lambda)):
+                    continue
+                else:
+                    rec(c)
+        rec(fn)
+    nested(node, fq)
 json.dump(inv, open(os.path.join(os.path.dirname(os.path.dirname(os.path.abspath(__file__))), "sa", "inventory.json"), "w"), indent=0)
-print(len(inv), "functions")
+print(len(inv["functions"]), "functions,", sum(len(v) for v in inv["attrs"].values()), "attributes in", len(inv["attrs"]), "classes")
